@@ -219,6 +219,7 @@ class _ProxyFile:
                 self.fs.fired = True
                 raise SimCrash(f'crash after byte {plan["byte"]} of {self.path}')
         self._put(data)
+        self.fs.after(op)
         return len(data)
 
     def read(self, n=-1):
@@ -237,6 +238,7 @@ class _ProxyFile:
         plan = self.fs.plan
         if plan and plan.get('op') == op and plan['kind'] == 'oserror':
             raise OSError(plan.get('errno', errno.EIO), os.strerror(plan.get('errno', errno.EIO)), self.path)
+        self.fs.after(op)
 
 
 class FaultFS:
@@ -250,6 +252,7 @@ class FaultFS:
         self.written = {}
         self.write_calls = {}
         self.fired = False
+        self.set_interrupt = None
 
     def reset_log(self):
         self.ops = []
@@ -264,8 +267,33 @@ class FaultFS:
             self.fired = True
         return idx
 
+    def after(self, idx):
+        """an interrupt that arrived while operation idx was inside the kernel: pending when the call returns"""
+        plan = self.plan
+        if plan and plan.get('kind') == 'sigint_after' and plan.get('op') == idx and self.set_interrupt is not None:
+            self.set_interrupt()
+
     def owns(self, path):
         return str(path).startswith(self.base)
+
+    def _wrap_os(self, name):
+        real = getattr(os, name)
+        fs = self
+
+        def wrapper(*args, **kwargs):
+            paths = [os.fspath(a) for a in args[:2] if isinstance(a, (str, bytes, os.PathLike))]
+            paths = [p.decode() if isinstance(p, bytes) else p for p in paths]
+            if not any(fs.owns(p) for p in paths):
+                return real(*args, **kwargs)
+            idx = fs._op(name, paths[-1], 0)
+            plan = fs.plan
+            if plan and plan.get('op') == idx and plan['kind'] == 'oserror':
+                raise OSError(plan.get('errno', errno.EACCES), os.strerror(plan.get('errno', errno.EACCES)), paths[0])
+            result = real(*args, **kwargs)
+            fs.after(idx)
+            return result
+        wrapper._verif_real = real
+        return wrapper
 
     def open(self, path, mode='r', *args, **kwargs):
         p = str(path)
@@ -275,10 +303,18 @@ class FaultFS:
         plan = self.plan
         if plan and plan.get('op') == op and plan['kind'] == 'oserror':
             raise OSError(plan.get('errno', errno.EACCES), os.strerror(plan.get('errno', errno.EACCES)), p)
-        return _ProxyFile(self, io.open(path, mode, *args, **kwargs), p, mode)
+        f = _ProxyFile(self, io.open(path, mode, *args, **kwargs), p, mode)
+        self.after(op)
+        return f
 
-    def install(self):
+    def install(self, set_interrupt=None):
         from flipjump.fjm import fjm_writer
         from flipjump.utils import functions
+        self.set_interrupt = set_interrupt
         fjm_writer.open = self.open
         functions.open = self.open
+        # renames and removals under the base directory become numbered operations too (real ones, pass-through
+        # for every other path): os.replace / os.rename / os.unlink / os.remove
+        for name in ('replace', 'rename', 'unlink', 'remove'):
+            if not hasattr(getattr(os, name), '_verif_real'):
+                setattr(os, name, self._wrap_os(name))
